@@ -294,11 +294,12 @@ FUNCTIONS.update({
     file='scales/loadbalancer/base.py', path='LoadBalancerSink._OpenImpl', cls='ApertureBalancerSink', returns='bool?', aspect='ap',
     conc='MembersApLoading', guar=['MembersAp'],
     locals={'server_set': 'list[SetMember]'},
-    requires=['allocated(self.__init_done)', 'not self.__init_done.flag', 'self._size == 0', 'forall(e, "any", not (e in self._idle_endpoints))'],
+    requires=['allocated(self.__init_done)', 'not self.__init_done.flag', 'self._size == 0', 'forall(e, "any", not (e in self._idle_endpoints))',
+              'self.__open_ar is not None and allocated(self.__open_ar)'],
     ensures=['implies(result is not None, self.__init_done.flag)'],
     raises={'ValueError': dict()},
     modifies=_AP_MOD + ['Event.flag', 'LoadBalancerSink._servers', 'LoadBalancerSink._state', 'LoadBalancerSink._open_greenlet', 'HeapBalancerSink._open',
-                        'list[SetMember]', 'Channel.g_opens', 'HeapBalancerSink._downq', 'Node.g_rank'],
+                        'list[AsyncResult]', 'list[int]', 'AsyncResult.g_sets', 'AsyncResult.value', 'AsyncResult.exception', 'AsyncResult.g_ready', 'AsyncResult.g_value', 'AsyncResult.g_failed', 'list[SetMember]', 'Channel.g_opens', 'HeapBalancerSink._downq', 'Node.g_rank'],
     allocates='any',
     yields=[{'at': 'gevent.sleep(5)'}, {'at': 'self._server_set_provider.Initialize('}, {'at': 'self._server_set_provider.GetServers()'}],
     loops={
